@@ -478,9 +478,37 @@ func Described(info *spec.EMsg, g *GV) *GV {
 		case keep[k]:
 			// oneof holder or embedded pointer: project inside with the message of the branch / the embedded fields
 			if e.K == "o" && !e.Nil {
+				found := false
 				for _, bf := range info.Fields {
-					if bf.Oneof == k && bf.GoName == e.Keys[0] && bf.Msg != nil {
-						e = &GV{K: "o", Keys: e.Keys, Elems: []*GV{describedIn(bf.Msg, e.Elems[0])}}
+					if bf.Oneof == k && bf.GoName == e.Keys[0] {
+						found = true
+						if bf.Msg != nil {
+							e = &GV{K: "o", Keys: e.Keys, Elems: []*GV{describedIn(bf.Msg, e.Elems[0])}}
+						}
+					}
+				}
+				if !found {
+					// the active branch is a field the schema does not describe (excluded): not copied
+					e = &GV{K: "o", Nil: true}
+				}
+			}
+			if e.K == "p" && !e.Nil && e.Elems[0].K == "st" {
+				// pointer-embedded message: inside it only the promoted fields the schema describes count
+				sub := &spec.EMsg{Name: k}
+				for _, pf := range info.Fields {
+					if len(pf.Via) > 0 && pf.Via[0] == k {
+						c := *pf
+						c.Via = pf.Via[1:]
+						sub.Fields = append(sub.Fields, &c)
+					}
+				}
+				if len(sub.Fields) > 0 {
+					inner := Described(sub, e.Elems[0])
+					if IsZeroGV(inner) {
+						// all described fields zero: the normal form of a nullable embedded message is nil
+						e = &GV{K: "p", Nil: true}
+					} else {
+						e = &GV{K: "p", Elems: []*GV{inner}}
 					}
 				}
 			}
